@@ -65,7 +65,7 @@ type c10 struct{}
 func init() {
 	register(c10{})
 	expectedProbes["C10"] = []string{"entry:ExpandSchema", "entry:ExpandSchemaWithBasePath", "entry:ExpandParameterWithRoot", "entry:ExpandParameter", "entry:ExpandResponseWithRoot", "entry:ExpandResponse",
-		"root:typed", "root:generic", "cache:lib", "cache:fresh", "cache:prefilled", "cyclic-element", "kept-ref", "external-document-followed", "root-compared", "options-compared"}
+		"root:typed", "root:generic", "cache:lib", "cache:fresh", "cache:prefilled", "cyclic-element", "kept-ref", "external-document-followed", "root-compared", "options-compared", "two-roots-one-cache"}
 }
 
 func (c10) ID() string { return "C10" }
@@ -110,8 +110,65 @@ func (c10) Gen(r *sim.RNG, tier string, idx int) *Scenario {
 			sort.Strings(sc.Ops[i].Pre)
 		}
 	}
+	for i := range sc.Ops {
+		sc.Ops[i].Base = RandBase(r, sc.World)
+	}
+	if r.Bool(0.4) && !rootReferencedByURL(sc.World) {
+		// a second root at the same location (other documents unchanged) and a tail of calls that
+		// share ONE caller cache while alternating between the two roots: each result must be the
+		// element in the context of the root that was passed with that call
+		w2 := sc.World.Clone()
+		w2.Docs[w2.Root] = mutateDoc(w2.Docs[w2.Root], "#root2")
+		sc.Worlds = []*model.World{w2}
+		var cands []Op
+		for _, o := range elementOps(sc.World, r, 0, false) {
+			if strings.HasSuffix(o.Entry, "WithRoot") || o.Entry == "ExpandSchema" {
+				cands = append(cands, o)
+			}
+		}
+		for i := 0; i < 2+r.Intn(4) && len(cands) > 0; i++ {
+			o := cands[r.Intn(len(cands))]
+			o.Cache = "reuse"
+			o.World = i % 2
+			if r.Bool(0.3) {
+				o.World = r.Intn(2)
+			}
+			sc.Ops = append(sc.Ops, o)
+		}
+		sc.Mix = []string{"hcache", "lib"}[r.Intn(2)]
+	}
 	sc.OrderKeys = OrderKeysFor(r.Uint64(), 2)
 	return sc
+}
+
+// rootReferencedByURL reports whether some reference of the world designates the root document
+// by its URL (anything but a fragment-only reference inside the root itself). Such a world cannot
+// be used with two different roots on one cache: the root would also be cached as an external
+// document, and the two worlds would no longer consist of the same documents.
+func rootReferencedByURL(w *model.World) bool {
+	found := false
+	var visit func(u string, v interface{})
+	visit = func(u string, v interface{}) {
+		switch c := v.(type) {
+		case map[string]interface{}:
+			if ref, ok := c["$ref"].(string); ok {
+				if d, _, err := model.Locate(u, ref); err == nil && d == w.Root && !(u == w.Root && (strings.HasPrefix(ref, "#") || ref == "")) {
+					found = true
+				}
+			}
+			for _, x := range c {
+				visit(u, x)
+			}
+		case []interface{}:
+			for _, x := range c {
+				visit(u, x)
+			}
+		}
+	}
+	for u, d := range w.Docs {
+		visit(u, d)
+	}
+	return found
 }
 
 // checkElementResult is the oracle shared by C10 and C18's transparency baseline.
@@ -161,15 +218,27 @@ func (c10) Run(sc *Scenario) *Verdict {
 		return v
 	}
 	nodes := w.CountNodes()
-	store := sim.NewStore(w.Docs, nil)
+	w0 := w
+	shared := map[uint64]spec.ResolutionCache{}
 	for _, op := range sc.Ops {
+		w := sc.WorldOf(op.World)
+		if w == nil {
+			w = w0
+		}
+		store := sim.NewStore(w.Docs, nil)
+		if op.Cache == "reuse" {
+			if rootReferencedByURL(w0) {
+				continue // the two roots would also differ as an external document: not the same documents any more
+			}
+			v.probe("two-roots-one-cache")
+		}
 		start, ok := w.NodeAt(w.Root, op.Ptr, kindOfPtr(op.Ptr))
 		if !ok {
 			continue
 		}
 		reach := w.Reachable(start, false)
-		u := w.Unfolding(start, false, 100000)
-		if u >= 100000 {
+		u := w.Unfolding(start, false, 3000)
+		if u >= 3000 {
 			continue
 		}
 		budget := int64(c04Factor*(u+nodes) + 1000)
@@ -187,7 +256,14 @@ func (c10) Run(sc *Scenario) *Verdict {
 			}
 		}
 		for _, k := range sc.OrderKeys {
-			res := ExecOp(op, &Env{World: w, Store: store, OrderKey: k, Budget: budget})
+			if shared[k] == nil {
+				if sc.Mix == "lib" {
+					shared[k] = spec.VerifNewSimpleCache()
+				} else {
+					shared[k] = NewHCache()
+				}
+			}
+			res := ExecOp(op, &Env{World: w, Store: store, OrderKey: k, Budget: budget, Cache: shared[k]})
 			v.Steps += res.Out.Steps
 			v.addFaults(res.Log)
 			v.OrderSig = sim.Mix(v.OrderSig, res.Ctx.OrderHash)
@@ -234,7 +310,7 @@ type c18 struct{}
 
 func init() {
 	register(c18{})
-	expectedProbes["C18"] = []string{"mode:fresh", "mode:lib", "mode:prefilled", "mode:reuse", "preloaded-document-on-path", "reuse-saved-a-request", "external-document-followed", "expandspec-at-most-once-checked", "sequence-of-3+"}
+	expectedProbes["C18"] = []string{"mode:fresh", "mode:lib", "mode:prefilled", "mode:reuse", "preloaded-document-on-path", "reuse-saved-a-request", "external-document-followed", "expandspec-at-most-once-checked", "sequence-of-3+", "schemas-with-colliding-ids"}
 }
 
 func (c18) ID() string { return "C18" }
@@ -255,6 +331,9 @@ func (c18) Gen(r *sim.RNG, tier string, idx int) *Scenario {
 	if cfg.NDocs == 0 {
 		cfg.NDocs = 1 + r.Intn(3)
 	}
+	if r.Bool(0.3) {
+		cfg.IDs = 3
+	}
 	sc.Cfg = &cfg
 	sc.World = gen.Generate(r, cfg)
 	// a sequence of element expansions; Run derives the cache-state variants of each
@@ -264,6 +343,7 @@ func (c18) Gen(r *sim.RNG, tier string, idx int) *Scenario {
 	for i := 0; i < n && len(ops) > 0; i++ {
 		op := ops[r.Intn(len(ops))]
 		op.Cache = "reuse"
+		op.Base = RandBase(r, sc.World)
 		for _, u := range keys(sc.World.Docs) {
 			if u != sc.World.Root && r.Bool(0.5) {
 				op.Pre = append(op.Pre, u)
@@ -289,6 +369,9 @@ func usesCache(entry string) bool {
 func dupRequest(l *sim.ReqLog) string {
 	seen := map[string]bool{}
 	for _, q := range l.Reqs {
+		if q.Miss {
+			continue // nothing was served: there is no document to have fetched twice
+		}
 		if seen[q.URL] {
 			return q.URL
 		}
@@ -301,9 +384,13 @@ func (c18) Run(sc *Scenario) *Verdict {
 	v := &Verdict{}
 	w := sc.World
 	full := w.Reachable(w.RootNode(), false)
-	if len(full.Bad) > 0 || full.IllFound {
+	hasIDs := sc.Cfg != nil && sc.Cfg.IDs > 0
+	if (len(full.Bad) > 0 || full.IllFound) && !hasIDs {
 		v.Inconclusive = "world is not well-formed (outside this property's quantifier)"
 		return v
+	}
+	if hasIDs {
+		v.probe("schemas-with-colliding-ids")
 	}
 	store := sim.NewStore(w.Docs, nil)
 	if len(sc.Ops) >= 3 {
